@@ -1,18 +1,23 @@
 ----------------------------- MODULE Trace_C11 -----------------------------
 (* Trace validation for C11.  One event per public call on a real security.Count, logged at its
-   return together with what the three read operations report afterwards:
-     sqn, ovf   SQN() and Overflow() right after the call
-     get        Get()
-     sqn2, ovf2 SQN() and Overflow() once more (reads must not change the value)
-     ret        the value returned by the call itself when it is a read, else -1
-   The spec tracks the counter value `c` of NasCount; an observation is accepted iff all reads
-   show Apply(op, a, b, c).  VERDICT = public API values only; the raw 32-bit word (rawhi, rawlo,
-   from the verif hook) is INFORMATION (NOTE when its low 24 bits differ from c).
+   return: the operation, its arguments and, for the three reads, the value returned (`ret`).
+   NOTHING else is read by the driver: which reads happen, when and in which order is part of the
+   history (chosen by TLC's behaviours and by the seeded recorder), because a read is an operation
+   of the machine - an implementation whose Get repairs or damages the state must not be helped by
+   an observation after every step.
+   The spec tracks the counter value `c` of NasCount across the events (writes: c' = Apply(op, a, b, c);
+   reads: c' = c) and judges every read against it:
+       Get() = c     SQN() = c mod 256     Overflow() = c div 256
+   so "reads never change the value" shows as a later read disagreeing with the tracked value.
+   VERDICT = values returned by the public reads only; the raw 32-bit word (rawhi, rawlo, verif hook,
+   logged after every call) is INFORMATION (NOTE when its low 24 bits differ from c).
+   SetRaw (hook) places the counter; New is the zero value, whose first Get establishes c.
    Stateless events:
-     Apply  : Set(pre) ; fn(a, b) ; reads       expected Apply(fn, a, b, pre)
+     Apply  : place(pre) ; fn(a, b) ; SQN, Overflow, Get, SQN, Overflow     expected Apply(fn, a, b, pre)
      Digest : weighted sums modulo three primes of the implementation's function table
               x |-> value read after fn(a, b) from state x, over chunk k = k*65536 .. k*65536+65535,
-              compared with the same fold of the specification operator (DESIGN 4.3).
+              compared with the same fold of the specification operator (DESIGN 4.3); three tables:
+              Get, Overflow*256+SQN read before that Get, and the same read after it.
    The spec is total: a mismatch is printed, the state is resynchronised on the observation and
    only the first mismatch of a history (up to the next TraceReset) is reported. *)
 EXTENDS NasCount, Json, TLC, Sequences, FiniteSetsExt
@@ -27,47 +32,49 @@ W(x, p) == 1 + (x % (p - 1))            \* weight in 1..p-1, never 0 modulo p
 ChunkSet(k) == (k * 65536)..(k * 65536 + 65535)
 Dig(fn, a, b, k, p) ==
   CASE fn = "AddOne"      -> FoldSet(LAMBDA x, acc : (acc + W(x, p) * (AddOneF(x) % p)) % p, 0, ChunkSet(k))
+    [] fn = "AddRun"      -> FoldSet(LAMBDA x, acc : (acc + W(x, p) * (AddRunF(x, a) % p)) % p, 0, ChunkSet(k))
     [] fn = "SetSQN"      -> FoldSet(LAMBDA x, acc : (acc + W(x, p) * (SetSQNF(x, a) % p)) % p, 0, ChunkSet(k))
     [] fn = "SetOverflow" -> FoldSet(LAMBDA x, acc : (acc + W(x, p) * (SetOverflowF(x, a) % p)) % p, 0, ChunkSet(k))
     [] fn = "Set"         -> FoldSet(LAMBDA x, acc : (acc + W(x, p) * (SetF(a, b) % p)) % p, 0, ChunkSet(k))
     [] OTHER              -> FoldSet(LAMBDA x, acc : (acc + W(x, p) * (x % p)) % p, 0, ChunkSet(k))
 DigestOK(e) == LET d == <<Dig(e.fn, e.a, e.b, e.chunk, P1), Dig(e.fn, e.a, e.b, e.chunk, P2), Dig(e.fn, e.a, e.b, e.chunk, P3)>>
-               IN e.sums = d /\ e.sums2 = d
+               IN e.sums = d /\ e.sums2 = d /\ e.sums3 = d
 
-Reads == {"Get", "SQN", "Overflow"}
-Ops   == {"Set", "SetSQN", "SetOverflow", "AddOne"} \cup Reads
-\* all reads after the call show value v
+Reads  == {"Get", "SQN", "Overflow"}
+Writes == {"Set", "SetSQN", "SetOverflow", "AddOne"}
+Known == c >= 0
+\* what a read must return when the counter holds v
+ReadOf(op, v) == CASE op = "Get" -> v [] op = "SQN" -> SqnOf(v) [] op = "Overflow" -> OvfOf(v) [] OTHER -> -1
+InRange(op, r) == CASE op = "Get" -> r \in 0..(M - 1) [] op = "SQN" -> r \in 0..255 [] op = "Overflow" -> r \in 0..65535 [] OTHER -> FALSE
+\* Apply events carry a whole observation
 Shows(e, v) == /\ e.get = v /\ e.sqn = SqnOf(v) /\ e.ovf = OvfOf(v)
                /\ e.sqn2 = SqnOf(v) /\ e.ovf2 = OvfOf(v)
-RetOK(op, ret, v) == CASE op = "Get" -> ret = v
-                       [] op = "SQN" -> ret = SqnOf(v)
-                       [] op = "Overflow" -> ret = OvfOf(v)
-                       [] OTHER -> TRUE
-\* the observation alone satisfies the invariant of the property
-SelfConsistent(e) == e.get = e.ovf * 256 + e.sqn /\ e.get \in 0..(M - 1) /\ e.sqn \in 0..255 /\ e.ovf \in 0..65535
-                     /\ e.sqn2 = e.sqn /\ e.ovf2 = e.ovf
-Known == c >= 0
+               /\ e.fn \in Reads => e.ret = ReadOf(e.fn, v)
 Expected(e) ==
-  CASE e.op = "New"    -> (IF SelfConsistent(e) THEN e.get ELSE 0)      \* a fresh Count: any consistent value
-    [] e.op = "SetRaw" -> e.a
-    [] e.op = "Apply"  -> Apply(e.fn, e.a, e.b, e.pre)
-    [] e.op \in Ops    -> IF Known \/ e.op = "Set" THEN Apply(e.op, e.a, e.b, c)
-                          ELSE (IF SelfConsistent(e) THEN e.get ELSE 0)
+  CASE e.op = "Apply"  -> Apply(e.fn, e.a, e.b, e.pre)
+    [] e.op \in Reads  -> IF Known THEN ReadOf(e.op, c) ELSE -1
     [] OTHER -> -1
 Accept(e) ==
-  CASE e.op \in {"TraceReset"} -> TRUE
+  CASE e.op \in {"TraceReset", "New", "SetRaw"} \/ e.op \in Writes -> TRUE
     [] e.op = "Digest" -> DigestOK(e)
-    [] e.op = "New"    -> SelfConsistent(e)
-    [] e.op = "Apply"  -> Shows(e, Expected(e)) /\ RetOK(e.fn, e.ret, Expected(e))
-    [] e.op = "SetRaw" \/ e.op \in Ops -> Shows(e, Expected(e)) /\ RetOK(e.op, e.ret, Expected(e))
+    [] e.op = "Apply"  -> Shows(e, Expected(e))
+    [] e.op \in Reads  -> IF Known THEN e.ret = ReadOf(e.op, c) ELSE InRange(e.op, e.ret)
     [] OTHER -> FALSE
 Stateless(e) == e.op \in {"Digest", "Apply"}
+\* the value after the event; after a rejected read: resynchronised on what was returned
+Resync(e) == CASE ~InRange(e.op, e.ret) -> c
+               [] e.op = "Get" -> e.ret
+               [] e.op = "SQN" -> IF Known THEN OvfOf(c) * 256 + e.ret ELSE c
+               [] OTHER        -> IF Known THEN e.ret * 256 + SqnOf(c) ELSE c
 CNext(e) ==
-  CASE e.op = "TraceReset" -> -1
+  CASE e.op \in {"TraceReset", "New"} -> -1
     [] Stateless(e) -> c
-    [] Accept(e) -> Expected(e)
-    [] OTHER -> (IF SelfConsistent(e) THEN e.get ELSE Expected(e))       \* resynchronise
-RawAgrees(e) == e.rawhi < 0 \/ Stateless(e) \/ e.op = "TraceReset" \/ (e.rawhi % 256) * 65536 + e.rawlo = CNext(e)
+    [] e.op = "SetRaw" -> e.a
+    [] e.op = "Set" -> SetF(e.a, e.b)
+    [] e.op \in Writes -> IF Known THEN Apply(e.op, e.a, e.b, c) ELSE c
+    [] e.op \in Reads -> IF Known /\ Accept(e) THEN c ELSE Resync(e)
+    [] OTHER -> c
+RawAgrees(e) == e.rawhi < 0 \/ Stateless(e) \/ e.op = "TraceReset" \/ CNext(e) < 0 \/ (e.rawhi % 256) * 65536 + e.rawlo = CNext(e)
 
 TInit == l = 1 /\ c = -1 /\ bad = FALSE /\ TLCSet(2, 0) /\ TLCSet(3, 0)
 TNext ==
